@@ -197,7 +197,11 @@ class Gen(object):
         n = self.some(self.m.nodes)
         if n is None:
             return None
-        return {'op': 'add_source', 'name': self.name('S'), 'node': n, 'stype': self.rng.pick(SOURCE_TYPES), 'quality': _r(self.rng.uni(0.0001, 0.01), 6),
+        nm = self.name('S')
+        mine = [ln for ln, l in self.m.links.items() if n in (l['a'], l['b']) and ln not in self.m.sources]
+        if mine and self.rng.chance(0.12):
+            nm = self.rng.pick(sorted(mine))      # names of sources and links live in different registries: the same name is allowed
+        return {'op': 'add_source', 'name': nm, 'node': n, 'stype': self.rng.pick(SOURCE_TYPES), 'quality': _r(self.rng.uni(0.0001, 0.01), 6),
                 'pattern': self.pattern_or_none(0.5)}
 
     def op_add_demand(self):
